@@ -72,7 +72,7 @@ def step(spec, op, t, m, hist, report, acc=None):
             return t, m, 'raised-unobservable', None
     r = res.t if res.t is not None else t
     if checked:
-        d = diff(r, res.m, order=res.order, tol=tol)
+        d = diff(r, res.m, order=res.order, tol=tol, by_id=(res.order == ('exact', 'exact')))
         if d is not None:
             report('model:%s' % op[0], 'after %s: %s' % (opname(op), d))
             return r, res.m, 'stop', res
